@@ -164,12 +164,37 @@ def validate(ctx, trace_files, tag="C01", loaded=None):
     if not traces:
         ctx.cov["traces_recorded"] = 0
         return
-    verdicts, r = run_tlc(traces, tag=f"trace{tag}")
-    if r.violation:
-        ctx.model_violation("Trace_Preproc", r)
-    if len(verdicts) != len(traces):
-        raise core.MachineryError(f"Trace_Preproc judged {len(verdicts)} of {len(traces)} traces\n" + r.stdout[-1500:])
-    ctx.add_tlc("Trace_Preproc", r, note=f"{len(traces)} traces, {sum(len(t['ev']) for t in traces)} events")
+    # batches of bounded size: one TLC run reads its whole batch as a single JSON value
+    batches, cur, size = [], [], 0
+    for t in traces:
+        n = len(t["ev"]) * 260 + sum(len(v) for v in t["files"].values()) * 60 + 200
+        if cur and (size + n > 40_000_000 or len(cur) >= 1500):
+            batches.append(cur)
+            cur, size = [], 0
+        cur.append(t)
+        size += n
+    if cur:
+        batches.append(cur)
+    from concurrent.futures import ThreadPoolExecutor
+    with ThreadPoolExecutor(max_workers=min(4, len(batches))) as ex:
+        results = list(ex.map(lambda ib: run_tlc(ib[1], tag=f"trace{tag}{ib[0]}"), enumerate(batches)))
+    verdicts = []
+    r = results[0][1]
+    off = 0
+    for b, (vs, rb) in zip(batches, results):
+        if rb.violation:
+            ctx.model_violation("Trace_Preproc", rb)
+        if len(vs) != len(b):
+            raise core.MachineryError(f"Trace_Preproc judged {len(vs)} of {len(b)} traces\n" + rb.stdout[-1500:])
+        for v in vs:
+            verdicts.append(dict(v, verdict=v["verdict"] + off))
+        off += len(b)
+        if rb is not r:
+            r.states += rb.states
+            r.generated += rb.generated
+            r.wall = max(r.wall, rb.wall)
+    ctx.add_tlc("Trace_Preproc", r, note=f"{len(traces)} traces, {sum(len(t['ev']) for t in traces)} events, "
+                                         f"{len(batches)} TLC run(s)")
     ctx.cov["traces_validated_against_impl"] += len(traces)
     ctx.cov["trace_events"] = ctx.cov.get("trace_events", 0) + sum(len(t["ev"]) for t in traces)
     for v in verdicts:
